@@ -18,7 +18,7 @@ package wal
 // is the wal part of C11 and not decided here).
 //@ ghost WalRec Str
 //@ globalinv errNilFD != nil
-//@ define walOK(w) = w != nil && (w.fd != nil ==> (FdOpen[ref(w.fd)] && FdPath[ref(w.fd)] == w.path))
+//@ define walOK(w) = w != nil && (w.fd != nil ==> (ref(w.fd) < alloc && FdOpen[ref(w.fd)] && FdPath[ref(w.fd)] == w.path))
 //
 //@ func (*wal.WAL).close -> err
 //@ props C12 C14 C03
@@ -26,6 +26,7 @@ package wal
 //@ holds w.mu
 //@ assigns w.fd, FdOpen
 //@ ensures err == nil ==> (walOK(w) && w.fd == nil)
+//@ ensures forall(Int(x), x != old(ref(w.fd)) ==> FdOpen[x] == old(FdOpen)[x], trig(FdOpen[x]))
 //
 // Write returns nil only after the records have been appended to the log file and the file has been
 // fsynced: the whole file content is covered by the sync and is the old content followed by the new
@@ -50,4 +51,31 @@ package wal
 //@ requires walOK(w)
 //@ assigns w.fd, FdOpen, DskEx
 //@ ensures err == nil ==> DskEx == store(old(DskEx), w.path, false)
+//@ ensures forall(Int(x), x != old(ref(w.fd)) ==> FdOpen[x] == old(FdOpen)[x], trig(FdOpen[x]))
 //@ ensures err != nil ==> DskEx == old(DskEx)
+//
+//@ func wal.Open -> r, err
+//@ props C14 C03
+//@ trusted opens an existing log file (os.Stat, os.OpenFile, version from the file name); FS effect stated, body not verified
+//@ assigns FdOpen, FdPath
+//@ ensures err == nil ==> (r != nil && walOK(r) && ref(r) >= old(alloc) && r.fd != nil && ref(r.fd) >= old(alloc))
+//@ ensures forall(Int(x), x < old(alloc) ==> (FdOpen[x] == old(FdOpen)[x] && FdPath[x] == old(FdPath)[x]), trig(FdOpen[x]), trig(FdPath[x]))
+//@ ensures DskEx == old(DskEx) && DskData == old(DskData) && DskSync == old(DskSync)
+//
+//@ func (*wal.WAL).Read -> es, err
+//@ props C14 C03
+//@ trusted reads the whole file and decodes the records (wal part of C11, not decided); no effect on the disk model
+//@ requires walOK(w)
+//@ assigns BufC, BufStore, BufOwned, RdData, RdPos
+//@ ensures walOK(w)
+//
+//@ func wal.ParseVersion -> r
+//@ trusted string manipulation of a file name (strings.Split/TrimSuffix/fmt.Sprintf); no heap effect; result unconstrained here (its order is C02's business, D9)
+//@ assigns nothing
+//@ func wal.CompareVersion -> r
+//@ trusted string comparison of two version strings; no heap effect; result unconstrained here (C02, D9)
+//@ assigns nothing
+//@ func (*wal.WAL).Version -> r
+//@ props C12
+//@ trusted returns w.version under the lock; no heap effect
+//@ assigns nothing
